@@ -19,8 +19,16 @@ def harness(req, timeout=600):
     env = dict(os.environ)
     env['VERIF_REPO'] = REPO
     env['PYTHONPATH'] = REPO + os.pathsep + env.get('PYTHONPATH', '')
-    p = subprocess.run([PYRUN, os.path.join(HERE, 'harness', 'run_concrete.py')], input=json.dumps(req),
-                       capture_output=True, text=True, timeout=timeout, env=env, cwd=HERE)
+    # the real code runs in a scratch directory of its own (pexpect.ANSI.DoLog appends to a file called 'log' in the
+    # current directory); it is removed as soon as the run is over
+    import tempfile, shutil
+    scratch = tempfile.mkdtemp(prefix='verif-run-')
+    env['PYTHONPATH'] = HERE + os.pathsep + env['PYTHONPATH']
+    try:
+        p = subprocess.run([PYRUN, os.path.join(HERE, 'harness', 'run_concrete.py')], input=json.dumps(req),
+                           capture_output=True, text=True, timeout=timeout, env=env, cwd=scratch)
+    finally:
+        shutil.rmtree(scratch, ignore_errors=True)
     if p.returncode != 0:
         return {'status': 'harness-error', 'stderr': p.stderr[-2000:]}
     try:
